@@ -16,22 +16,38 @@
 (* b1 := Marshal(x); b2 := Marshal(y) the bytes of b1 are y's text cut to     *)
 (* len(b1).  For "fresh" TLC proves both invariants for all call sequences    *)
 (* within the bound.                                                          *)
+(*                                                                            *)
+(* The INPUT side is the mirror image: the caller decodes from a buffer it    *)
+(* owns (`inbuf', typically one buffer reused for many texts) and may         *)
+(* overwrite it as soon as UnmarshalText has returned; the decoded value must *)
+(* not depend on the buffer afterwards, and decoding must not write to it.    *)
+(* DecImpl selects the decoder:                                               *)
+(*   "copy"      the decoded value holds its own copy of what it needs        *)
+(*               (url.URL.UnmarshalBinary: Parse(string(b)))                  *)
+(*   "zerocopy"  the text is parsed through an unsafe string view of the      *)
+(*               caller's bytes; host, path, query ... are substrings of it   *)
+(* "zerocopy" is right immediately after the call; TLC must find that the     *)
+(* value changes when the caller reuses its buffer.                           *)
 EXTENDS Integers, Sequences, TLC
 
 CONSTANTS Impl,      \* "fresh" | "pooled"
+          DecImpl,   \* "copy" | "zerocopy"
+          Sides,     \* which calls the enumeration offers: subset of {"out", "in"}
           Objs,      \* object ids
           TextOf,    \* TextOf[x]: the text of object x (a sequence of tokens)
           MaxOps
 
 VARIABLES mem,       \* mem[b]: content of buffer b (a sequence), b in 1..Len(mem)
           held,      \* results the caller(s) retained, in order of return
+          inbuf,     \* the caller's input buffer (a sequence of tokens)
+          decoded,   \* values decoded so far: [obj, view (TRUE: a view of inbuf[1..len]), len, text]
           ops        \* number of calls so far
-vars == <<mem, held, ops>>
+vars == <<mem, held, inbuf, decoded, ops>>
 
 ModelObjs == {1, 2, 3}
 ModelText == <<<<"l", "o", "n", "g", "e", "r">>, <<"m", "i", "d">>, <<"s">>>>   \* three lengths
 
-Init == mem = <<>> /\ held = <<>> /\ ops = 0
+Init == mem = <<>> /\ held = <<>> /\ inbuf = <<>> /\ decoded = <<>> /\ ops = 0
 
 Result(x, b) == [obj |-> x, buf |-> b, len |-> Len(TextOf[x]), text |-> TextOf[x]]
 (* writing t from the start of an existing array keeps the old bytes behind it *)
@@ -39,6 +55,7 @@ Overwrite(old, t) == t \o SubSeq(old, Len(t) + 1, Len(old))
 
 Marshal(x) ==
     /\ ops' = ops + 1
+    /\ UNCHANGED <<inbuf, decoded>>
     /\ IF Impl = "fresh" \/ mem = <<>>
        THEN /\ mem' = Append(mem, TextOf[x])
             /\ held' = Append(held, Result(x, Len(mem) + 1))
@@ -50,15 +67,33 @@ Read(r) == SubSeq(mem[r.buf], 1, r.len)           \* what the caller sees in a r
 (* Unmarshalling a retained result only reads it. *)
 Unmarshal(i) == /\ i \in DOMAIN held
                 /\ ops' = ops + 1
-                /\ UNCHANGED <<mem, held>>
+                /\ UNCHANGED <<mem, held, inbuf, decoded>>
+
+(* The caller copies x's text into its (reused) buffer and calls UnmarshalText(inbuf[:n]). *)
+Decode(x) ==
+    /\ ops' = ops + 1
+    /\ inbuf' = Overwrite(inbuf, TextOf[x])
+    /\ decoded' = Append(decoded, [obj |-> x, view |-> (DecImpl = "zerocopy"), len |-> Len(TextOf[x]), text |-> TextOf[x]])
+    /\ UNCHANGED <<mem, held>>
+(* ... and later overwrites the buffer with something else (zeros, 0xFF, the next text). *)
+Scribble == /\ inbuf # <<>>
+            /\ ops' = ops + 1
+            /\ inbuf' = [i \in DOMAIN inbuf |-> "junk"]
+            /\ UNCHANGED <<mem, held, decoded>>
+
+ReadDecoded(d) == IF d.view THEN SubSeq(inbuf, 1, d.len) ELSE d.text     \* what the decoded value prints as now
 
 Next == /\ ops < MaxOps
-        /\ \/ \E x \in Objs : Marshal(x)
-           \/ \E i \in DOMAIN held : Unmarshal(i)
+        /\ \/ "out" \in Sides /\ \E x \in Objs : Marshal(x)
+           \/ "out" \in Sides /\ \E i \in DOMAIN held : Unmarshal(i)
+           \/ "in" \in Sides /\ \E x \in Objs : Decode(x)
+           \/ "in" \in Sides /\ Scribble
 Spec == Init /\ [][Next]_vars
 
 (* C14: results are values ... *)
 ValuesNotViews == \A i \in DOMAIN held : Read(held[i]) = held[i].text
 (* ... so every retained result still round-trips to its own object. *)
 RoundTripsToOwn == \A i \in DOMAIN held : Read(held[i]) = TextOf[held[i].obj]
+(* ... and decoded values are values too: independent of the caller's buffer once the call has returned. *)
+DecodedIndependent == \A i \in DOMAIN decoded : ReadDecoded(decoded[i]) = TextOf[decoded[i].obj]
 =============================================================================
